@@ -102,7 +102,9 @@ def edition_text(edi):
 
 
 def render(spec):
-    tail = '\n' + '=' * 69 + '\n\tNORMAL COMPLETION\n' + '=' * 69 + '\n'
+    tail = ('\n\n Type and parameters of random generator at the end of simulation: \n'
+            '\t DRAND48_RANDOM 11835 50533 54246  COUNTER\t39756480\n\n\n'
+            + '=' * 69 + '\n\tNORMAL COMPLETION\n' + '=' * 69 + '\n')
     return header() + ''.join(edition_text(e) for e in spec['editions']) + tail
 
 
